@@ -134,6 +134,7 @@ pub open spec fn without_membership(gs: Seq<ConsumerGroup>, sid: u32, tid: u32, 
 }
 impl ClientManager {
     // client_memberships [C06.sibling.delete_client], [C06.sibling.delete_client.ret]
+    // LINKED: units/client_memberships/lemmas.rs, harness [C06.link.disconnect.delete_client] (mirror edits there)
     #[verifier::external_body]
     pub fn delete_client(&mut self, client_id: u32) -> (r: Option<Client>)
         ensures
@@ -141,6 +142,7 @@ impl ClientManager {
             match r { Some(c) => old(self).clients@.contains_key(client_id) && c == old(self).clients@[client_id], None => !old(self).clients@.contains_key(client_id) },
     { unimplemented!() }
     // client_memberships [C06.fail.join], [C06.member.join.ok], [C06.member.join.frame], [C06.member.join.list], [C06.member.join.unique]
+    // LINKED: units/client_memberships/lemmas.rs, harness [C06.link.disconnect.join_consumer_group] (mirror edits there)
     #[verifier::external_body]
     pub fn join_consumer_group(&mut self, client_id: u32, stream_id: u32, topic_id: u32, group_id: u32) -> (r: Result<(), IggyError>)
         requires members_wf(old(self)),
@@ -153,6 +155,7 @@ impl ClientManager {
             members_wf(final(self)),
     { unimplemented!() }
     // client_memberships [C06.fail.leave], [C06.member.leave.ok], [C06.member.leave.frame], [C06.member.leave.list], [C06.member.leave.unique]
+    // LINKED: units/client_memberships/lemmas.rs, harness [C06.link.disconnect.leave_consumer_group] (mirror edits there)
     #[verifier::external_body]
     pub fn leave_consumer_group(&mut self, client_id: u32, stream_id: u32, topic_id: u32, consumer_group_id: u32) -> (r: Result<(), IggyError>)
         requires members_wf(old(self)),
@@ -174,6 +177,11 @@ impl ClientManager {
 pub uninterp spec fn member_left(g: TopicGroup, member_id: u32) -> bool;
 // likewise ConsumerGroup::add_member ([C08.join.members], [C08.excl.join], [C08.even.join], [C08.inv.join]): event `member_joined`
 pub uninterp spec fn member_joined(g: TopicGroup, member_id: u32) -> bool;
+// STATED, NOT LINKED (link pass 2): event abstraction. TopicGroup keeps no `members` and the receiver is `&self`, so neither the
+// preconditions of the real functions (delete_member: group_inv + at most 2^32-1 members; add_member: group_wf + members_bound) nor
+// their postconditions can be stated here. The two predicates are uninterpreted and established only by these stubs, so nothing is
+// assumed about any state; what IS assumed is that the call returns (no panic) on every group — unit consumer_group proves that
+// ([C08.leave.total], [C08.join.total]) under the invariant of every group history ([C08.history]) and the member bound.
 impl TopicGroup {
     #[verifier::external_body]
     pub fn add_member(&self, member_id: u32)
